@@ -159,6 +159,7 @@ func runCheck(repo, prop, tier string) int {
 	notes := map[string]bool{}
 	usedExtern := map[string]bool{}
 	loopsNoVariant := []string{}
+	rangeLoops, loopsWithVariant := 0, 0
 	paths := 0
 	for _, fsel := range cfg.Funcs {
 		key, sel := fsel, kinds
@@ -190,6 +191,8 @@ func runCheck(repo, prop, tier string) int {
 		for _, e := range res.UsedExtern {
 			usedExtern[e] = true
 		}
+		rangeLoops += res.RangeLoops
+		loopsWithVariant += res.LoopsWithVariant
 		for _, k := range res.LoopsNoVariant {
 			loopsNoVariant = append(loopsNoVariant, fmt.Sprintf("%s loop %d", key, k))
 		}
@@ -404,6 +407,9 @@ func runCheck(repo, prop, tier string) int {
 	}
 	sort.Strings(ns)
 	assumptions = append(assumptions, ns...)
+	if rangeLoops+loopsWithVariant > 0 {
+		assumptions = append(assumptions, fmt.Sprintf("termination: %d range loops terminate by construction, %d loops have a proved variant (obligations loopK.decreases)", rangeLoops, loopsWithVariant))
+	}
 	if len(loopsNoVariant) > 0 {
 		assumptions = append(assumptions, "termination not checked for: "+strings.Join(loopsNoVariant, ", "))
 	}
